@@ -19,6 +19,9 @@ T3 = D(1970, 1, 1)
 POOLS = {
     'int64': [0, 1, -1, 7],
     'int8': [0, 1, -1, 100],
+    # integers that are not exactly representable as doubles (beyond 2**53)
+    'int64big': [2 ** 53 + 5, 2 ** 62 + 1, 2 ** 63 - 3, -(2 ** 53) - 7],
+    'uint64': [2 ** 64 - 2, 2 ** 53 + 1, 3],
     'uint8': [0, 1, 3, 200],
     'Int64': [0, 1, -1, 7],
     'float64': [0.0, 1.5, -2.25, 3.0],
@@ -41,7 +44,7 @@ NULLABLE = {'Int64', 'float64', 'float64x', 'boolobj', 'boolean', 'object-str',
             'object-strx', 'category', 'string', 'datetime64[ns]', 'datetime64[us]',
             'datetime64[ms]', 'datetime64[s]', 'datetime-tz', 'dateobj'}
 EXPECTED_TTYPE = {
-    'int64': 'int', 'int8': 'int', 'uint8': 'int', 'Int64': 'int',
+    'int64': 'int', 'int8': 'int', 'uint8': 'int', 'Int64': 'int', 'int64big': 'int', 'uint64': 'int',
     'float64': 'real', 'float64x': 'real', 'bool': 'bool', 'boolobj': 'bool',
     'boolean': 'bool', 'object-str': 'string', 'object-strx': 'string',
     'category': 'string', 'string': 'string', 'datetime64[ns]': 'date',
@@ -52,8 +55,10 @@ EXPECTED_TTYPE = {
 
 def make_series(family, values):
     vals = list(values)
-    if family in ('int64', 'int8', 'uint8'):
+    if family in ('int64', 'int8', 'uint8', 'uint64'):
         return pd.Series(vals, dtype=family)
+    if family == 'int64big':
+        return pd.Series(vals, dtype='int64')
     if family == 'Int64':
         return pd.Series([pd.NA if v is None else v for v in vals], dtype='Int64')
     if family in ('float64', 'float64x'):
@@ -120,7 +125,7 @@ def random_cases(family, n, rows, seed):
         yield tuple(rnd.choice(pool) for _ in range(k))
 
 
-FAMILIES_QUICK = ['int64', 'uint8', 'Int64', 'float64', 'float64x', 'bool', 'boolobj', 'boolean',
+FAMILIES_QUICK = ['int64', 'int64big', 'uint64', 'uint8', 'Int64', 'float64', 'float64x', 'bool', 'boolobj', 'boolean',
                   'object-str', 'object-strx', 'category', 'datetime64[ns]',
                   'datetime64[us]', 'datetime64[s]', 'datetime-tz', 'dateobj']
 # the pandas 'string' extension dtype is not among the column types of C01's
